@@ -72,6 +72,13 @@ static void *loop(void *arg) {
         /* first frame: Discover; then Probes from changing sources, a Query now and then */
         if (i == 0) mkframe(buf, c->mac, 0, 1, 0);
         else if (i % 7 == 6) mkframe(buf, c->mac, 6, 2 + i, 0);
+        else if (i % 5 == 1) {   /* Emit with two descriptors: Probe/Train + ACK are built and sent by this thread */
+            mkframe(buf, c->mac, 2, 2 + i, 0);
+            buf[32] = 0; buf[33] = 2;
+            buf[34] = 1; buf[35] = 0; buf[36] = 2; buf[41] = (uint8_t)(0x60 + c->id); memcpy(buf + 42, c->mac, 6);
+            buf[48] = 0; buf[49] = 0; buf[50] = 2; buf[55] = (uint8_t)(0x70 + c->id); memcpy(buf + 56, c->mac, 6);
+        }
+        else if (i % 11 == 3) { mkframe(buf, c->mac, 0x0B, 2 + i, 0); buf[32] = 17; }
         else mkframe(buf, c->mac, 4, 0, i);
         parseFrame(buf, c);
     }
